@@ -199,3 +199,56 @@ Proof.
   rewrite Hx in Hx'. inversion Hx'; subst x'. rewrite pruned_by_none by assumption.
   destruct (W sp); reflexivity.
 Qed.
+
+(** * The forget threshold is one of the thresholds the caller passed *)
+
+Definition invT (tr : list (op * res)) (h : handler) : Prop :=
+  aIgnoreBelow (hApp h) = 0 \/ exists r, In (Ignore (aIgnoreBelow (hApp h)), r) tr.
+
+Lemma invT_step : forall tr h o, invT tr h -> invT (tr ++ [(o, snd (step h o))]) (fst (step h o)).
+Proof.
+  intros tr h o HT. unfold invT in *.
+  destruct (step_app h o) as [(E1 & _) | (p & Ho & E)].
+  - rewrite E1. destruct HT as [HT | (r & HT)]; [now left | right; exists r; apply in_or_app; now left].
+  - rewrite E. subst o. unfold app_ignore_below.
+    destruct (Z.leb_spec p (aIgnoreBelow (hApp h))).
+    + destruct HT as [HT | (r & HT)]; [now left | right; exists r; apply in_or_app; now left].
+    + cbn [aIgnoreBelow]. right. eexists. apply in_or_app. right. left. reflexivity.
+Qed.
+
+Lemma invT_run : forall ops, invT (trace newHandler ops) (fst (run newHandler ops)).
+Proof.
+  intros ops. apply (run_preserves invT invT_step ops [] newHandler). now left.
+Qed.
+
+(** The clause "not below the threshold the peer allowed it to forget": if every threshold passed
+    to IgnorePacketsBelow is at most [A] (what the peer confirmed), then every accepted
+    application-data packet at or above [A] that the range limit has not dropped is listed in every
+    ACK frame generated for the application data space. *)
+Lemma unconfirmed_stay_acked : forall ops A q now only f,
+  let hw := runW newHandler (fun _ => None) ops in
+  0 <= A ->
+  (forall p r, In (Ignore p, r) (trace newHandler ops) -> p <= A) ->
+  accepted (trace newHandler ops) 2 q -> A <= q ->
+  ~ le_opt q (snd hw 2%nat) ->
+  snd (h_get_ack (fst hw) rph_Enc1RTT now only) = Some f ->
+  inR q (aRanges f).
+Proof.
+  intros ops A q now only f hw HA Hign Hacc HAq Hnw Hf.
+  assert (Eh : fst hw = fst (run newHandler ops)) by apply runW_fst.
+  set (x := tHist (aTr (hApp (fst hw)))).
+  assert (Hx : hist_of (fst hw) 2%nat = Some x) by reflexivity.
+  destruct (handler_duplicate_detected ops 2%nat q x Hacc Hx Hnw) as (Hd & _).
+  destruct (h_get_ack_frame (fst hw) rph_Enc1RTT now only f Hf) as (sp & x' & Hsp & Hx' & Hr & _).
+  assert (Esp : sp = 2%nat) by (cbv in Hsp; now inversion Hsp). subst sp.
+  rewrite Hx in Hx'. inversion Hx'; subst x'.
+  pose proof (invA_run ops 2%nat x) as HokA. rewrite <- Eh in HokA. destruct (HokA Hx) as (Hok & _).
+  apply (is_dup_spec x q Hok) in Hd.
+  assert (Hdb : deletedBelow x <= q).
+  { pose proof (invB_run ops) as (B1 & B2 & _). pose proof (invT_run ops) as HT. unfold invT in HT.
+    rewrite <- Eh in B1, B2, HT. fold x in B2.
+    assert (Hib : aIgnoreBelow (hApp (fst hw)) <= A).
+    { destruct HT as [HT | (r & HT)]; [lia | eauto]. }
+    destruct B2 as [B2 | [B2 _]]; unfold rph_InvalidPacketNumber in *; lia. }
+  destruct Hd as [Hd | Hd]; [lia |]. rewrite Hr. unfold backward. now rewrite inR_rev.
+Qed.
